@@ -36,6 +36,7 @@ import (
 	"strconv"
 	"strings"
 	"sync"
+	"testing/iotest"
 	"time"
 
 	"github.com/zeromicro/go-zero/internal/verifkit"
@@ -45,6 +46,71 @@ import (
 // KnownEmptyPayload is the id under which the empty-payload defect of the AES-ECB
 // unpadding (FINDINGS.md) may be listed in known_findings.json.
 const KnownEmptyPayload = "D12"
+
+// KnownUnknownLength is the id under which the second defect (FINDINGS.md: an encrypted
+// body sent with unknown length, i.e. chunked, reaches the handler undecrypted) may be
+// listed in known_findings.json.
+const KnownUnknownLength = "D-C18-2"
+
+// Transport shapes: the same logical request (same bytes readable from r.Body) can reach
+// the server with a declared length or without one.
+const (
+	ShapeSized    = "sized"          // Content-Length = len(body); empty body: http.NoBody, 0
+	ShapeUnknown  = "unknown-length" // ContentLength = -1 (Transfer-Encoding: chunked on the wire)
+	ShapeUnknown1 = "unknown-length-1byte"
+)
+
+var (
+	shapeMix        = []string{ShapeSized, ShapeSized, ShapeUnknown, ShapeUnknown, ShapeUnknown1}
+	shapeMixUnknown = []string{ShapeUnknown, ShapeUnknown, ShapeUnknown1, ShapeSized}
+)
+
+// shapedBody returns the request body and the ContentLength for a transport shape.
+func shapedBody(shape string, b []byte) (io.ReadCloser, int64) {
+	switch shape {
+	case ShapeUnknown:
+		return io.NopCloser(bytes.NewReader(b)), -1
+	case ShapeUnknown1:
+		return io.NopCloser(iotest.OneByteReader(bytes.NewReader(b))), -1
+	}
+	if len(b) == 0 {
+		return http.NoBody, 0
+	}
+	return io.NopCloser(bytes.NewReader(b)), int64(len(b))
+}
+
+// WireTarget is a real HTTP server (httptest.NewServer) in front of whatever gate the
+// current case built, and a client: requests of unknown length really travel with
+// Transfer-Encoding: chunked.
+type WireTarget struct {
+	srv    *httptest.Server
+	mu     sync.Mutex
+	h      http.Handler
+	Client *http.Client
+}
+
+// NewWireTarget starts the server.
+func NewWireTarget() *WireTarget {
+	w := &WireTarget{}
+	w.srv = httptest.NewServer(http.HandlerFunc(func(rw http.ResponseWriter, r *http.Request) {
+		w.mu.Lock()
+		h := w.h
+		w.mu.Unlock()
+		h.ServeHTTP(rw, r)
+	}))
+	w.Client = &http.Client{Timeout: 30 * time.Second}
+	return w
+}
+
+// SetHandler installs the gate of the current case.
+func (w *WireTarget) SetHandler(h http.Handler) {
+	w.mu.Lock()
+	w.h = h
+	w.mu.Unlock()
+}
+
+// Close stops the server.
+func (w *WireTarget) Close() { w.srv.Close() }
 
 // ------------------------------------------------------------------ RSA environment
 
@@ -793,6 +859,20 @@ func (p *Probe) Reset(resp []byte, chunks int, readBody bool) {
 	p.Resp, p.Chunks, p.ReadBody = resp, chunks, readBody
 }
 
+// RanCount tells how often the handler ran since Reset.
+func (p *Probe) RanCount() int {
+	p.mu.Lock()
+	defer p.mu.Unlock()
+	return p.Ran
+}
+
+// Seen returns what the handler read from r.Body.
+func (p *Probe) Seen() ([]byte, error) {
+	p.mu.Lock()
+	defer p.mu.Unlock()
+	return p.Body, p.BodyErr
+}
+
 func (p *Probe) ServeHTTP(w http.ResponseWriter, r *http.Request) {
 	p.mu.Lock()
 	defer p.mu.Unlock()
@@ -1052,8 +1132,10 @@ type CSReq struct {
 	AESKey              []byte
 	Resp                []byte
 	RespChunks          int
-	EmptyEncrypted      bool  // signature of the known finding D12
-	GenNow              int64 // the instant the timestamp was chosen against
+	EmptyEncrypted      bool   // signature of the known finding D12
+	GenNow              int64  // the instant the timestamp was chosen against
+	Shape               string // transport shape (ShapeSized, ...)
+	UnknownLenEncrypted bool   // signature of the known finding D-C18-2
 	Desc                string
 }
 
@@ -1102,6 +1184,12 @@ type CSGenOpt struct {
 	// UseCodecEncrypter, if set, encrypts the secret with go-zero's own client-side
 	// codec.RsaEncrypter (half of the cases) instead of the stdlib reference.
 	CodecEncrypt func(pubPEM, msg []byte) ([]byte, error)
+	// ExcludeUnknownLenEncrypted: the known finding D-C18-2 is listed; a valid request with
+	// an encrypted body is only sent with a declared length.
+	ExcludeUnknownLenEncrypted bool
+	// Wire, if set, sends every request through a real HTTP server instead of calling the
+	// gate in process.
+	Wire *WireTarget
 }
 
 type csParts struct {
@@ -1131,8 +1219,28 @@ func (p *csParts) secretText() string {
 	return strings.Join(f, "; ")
 }
 
-// GenCSReq draws a signed request and possibly one mutation of it.
+// GenCSReq draws a signed request, possibly one mutation of it, and the transport shape
+// it is sent with.
 func GenCSReq(t *rapid.T, st *verifkit.Stats, env *Env, conf CSConf, now int64, opt CSGenOpt) CSReq {
+	r := genCSReqLogical(t, st, env, conf, now, opt)
+	mix := shapeMix
+	if r.Mut == "body-replay" && len(r.Body) > 0 {
+		mix = shapeMixUnknown // an unsigned body appended to a body-less signed request
+	}
+	r.Shape = rapid.SampledFrom(mix).Draw(t, "shape")
+	if r.Pristine && r.WantValid && r.BodyEncrypted && r.Shape != ShapeSized {
+		if opt.ExcludeUnknownLenEncrypted {
+			st.Excluded()
+			r.Shape = ShapeSized
+		} else {
+			r.UnknownLenEncrypted = true
+		}
+	}
+	r.Desc += " shape=" + r.Shape
+	return r
+}
+
+func genCSReqLogical(t *rapid.T, st *verifkit.Stats, env *Env, conf CSConf, now int64, opt CSGenOpt) CSReq {
 	p := &csParts{}
 	p.method = rapid.SampledFrom(methods).Draw(t, "method")
 	p.path = genPath(t, "path")
@@ -1251,7 +1359,7 @@ func GenCSReq(t *rapid.T, st *verifkit.Stats, env *Env, conf CSConf, now int64, 
 	}
 
 	mut := rapid.SampledFrom([]string{
-		"method", "path", "path", "query", "query", "body", "body",
+		"method", "path", "path", "query", "query", "body", "body", "body-replay", "body-replay",
 		"ts-resecret", "ts-resecret", "fp-unknown", "fp-other", "rsa-unconfigured",
 		"sig-flip", "sig-trunc", "sig-wrongkey", "sig-otherhash", "key-resecret",
 		"hdr-missing", "hdr-drop-field", "hdr-garbage", "secret-garbage",
@@ -1326,6 +1434,20 @@ func GenCSReq(t *rapid.T, st *verifkit.Stats, env *Env, conf CSConf, now int64, 
 		}
 		r.Body = b
 		detail = fmt.Sprintf("%dB", len(b))
+	case "body-replay":
+		// the signature of a body-less request replayed with a body, or the signature of a
+		// request with a body replayed without one
+		if len(p.body) == 0 {
+			b := genBytes(t, "attackerBody", false)
+			if len(b) == 0 {
+				b = []byte(`{"transfer":"everything","to":"mallory"}`)
+			}
+			r.Body = b
+			detail = fmt.Sprintf("added %dB", len(b))
+		} else {
+			r.Body = nil
+			detail = "removed"
+		}
 	case "ts-resecret":
 		// another timestamp (still inside the tolerance) in a re-encrypted secret, old signature
 		d := rapid.SampledFrom([]int64{1, -1, 2, -3}).Draw(t, "tsDelta")
@@ -1462,38 +1584,74 @@ func target(path, query string) string {
 	return u
 }
 
-// SendCS performs the request and checks it against the reference.  It returns a
-// description of the violated clause ("" if none) and whether it is exactly the
-// signature of the known finding D12.
-func SendCS(env *Env, conf CSConf, gate http.Handler, probe *Probe, req CSReq, st *verifkit.Stats) (problem string, emptyPayloadDefect bool, inconclusive bool) {
-	var body io.Reader = http.NoBody
-	if len(req.Body) > 0 {
-		body = bytes.NewReader(req.Body)
+// SendCS performs the request (in process, or over the wire if opt.Wire is set) and
+// checks it against the reference.  It returns a description of the violated clause
+// ("" if none) and, if the failure is exactly the signature of a finding that may be
+// listed as known, that finding's id.
+func SendCS(env *Env, conf CSConf, gate http.Handler, probe *Probe, req CSReq, st *verifkit.Stats, wire *WireTarget) (problem string, defect string, inconclusive bool) {
+	if req.Shape == "" {
+		req.Shape = ShapeSized
 	}
-	hr := httptest.NewRequest(req.Method, target(req.Path, req.Query), body)
-	if hr.URL.Path != req.Path || hr.URL.RawQuery != req.Query {
-		return fmt.Sprintf("generator bug: request line parsed to path %q query %q", hr.URL.Path, hr.URL.RawQuery), false, false
-	}
-	if req.HasHeader {
-		hr.Header.Set("X-Content-Security", req.Header)
-	}
+	body, cl := shapedBody(req.Shape, req.Body)
 	probe.Reset(req.Resp, req.RespChunks, true)
-	rec := httptest.NewRecorder()
+	var code int
+	var respBody []byte
 	now0 := time.Now().Unix()
-	gate.ServeHTTP(rec, hr)
+	if wire == nil {
+		hr := httptest.NewRequest(req.Method, target(req.Path, req.Query), body)
+		hr.ContentLength = cl
+		if hr.URL.Path != req.Path || hr.URL.RawQuery != req.Query {
+			return fmt.Sprintf("generator bug: request line parsed to path %q query %q", hr.URL.Path, hr.URL.RawQuery), "", false
+		}
+		if req.HasHeader {
+			hr.Header.Set("X-Content-Security", req.Header)
+		}
+		rec := httptest.NewRecorder()
+		gate.ServeHTTP(rec, hr)
+		code, respBody = rec.Code, rec.Body.Bytes()
+	} else {
+		wire.SetHandler(gate)
+		u := wire.srv.URL + req.Path
+		if req.Query != "" {
+			u += "?" + req.Query
+		}
+		hr, err := http.NewRequest(req.Method, u, body)
+		if err != nil {
+			return "generator bug: " + err.Error(), "", false
+		}
+		hr.ContentLength = cl
+		if req.HasHeader {
+			hr.Header.Set("X-Content-Security", req.Header)
+		}
+		resp, err := wire.Client.Do(hr)
+		if err != nil {
+			if ne, ok := err.(interface{ Timeout() bool }); ok && ne.Timeout() {
+				return "", "", true
+			}
+			return fmt.Sprintf("transport error (did the gate panic?): %v", err), "", false
+		}
+		respBody, err = io.ReadAll(resp.Body)
+		resp.Body.Close()
+		if err != nil {
+			return fmt.Sprintf("transport error while reading the response: %v", err), "", false
+		}
+		code = resp.StatusCode
+	}
 	now1 := time.Now().Unix()
+	// the body digest is that of the bytes the handler can read from r.Body: req.Body
 	v0 := RefCS(env, conf, req.Header, req.HasHeader, req.Method, req.Path, req.Query, req.Body, now0)
 	v1 := RefCS(env, conf, req.Header, req.HasHeader, req.Method, req.Path, req.Query, req.Body, now1)
 	if v0.Accept != v1.Accept || now1-req.GenNow > 3 {
-		return "", false, true
+		return "", "", true
 	}
 	ref := v0
+	ran := probe.RanCount()
 	pf := func(format string, a ...any) string {
-		return fmt.Sprintf("%s\n reference: accept=%v (%s)\n got: handlerRan=%d status=%d respLen=%d",
-			fmt.Sprintf(format, a...), ref.Accept, ref.Why, probe.Ran, rec.Code, rec.Body.Len())
+		return fmt.Sprintf("%s\n reference: accept=%v (%s)\n got: handlerRan=%d status=%d respLen=%d shape=%s bodyOnWire=%dB",
+			fmt.Sprintf(format, a...), ref.Accept, ref.Why, ran, code, len(respBody), req.Shape, len(req.Body))
 	}
-	outcome := strconv.Itoa(rec.Code)
-	if probe.Ran == 1 {
+	outcome := strconv.Itoa(code)
+	if ran == 1 {
 		outcome = "ran"
 	}
 	cls := "mut:" + req.Mut
@@ -1502,63 +1660,80 @@ func SendCS(env *Env, conf CSConf, gate http.Handler, probe *Probe, req CSReq, s
 	}
 	if st != nil {
 		st.Class("cs/" + cls + "/" + outcome)
+		bodyKind := "empty-body"
+		if len(req.Body) > 0 {
+			bodyKind = "body"
+		}
+		st.Class("cs/shape:" + req.Shape + "/" + bodyKind + "/" + outcome)
 	}
 	if req.Pristine && req.WantValid != ref.Accept {
-		return pf("generator bug: request built with valid=%v, reference says accept=%v", req.WantValid, ref.Accept), false, false
+		return pf("generator bug: request built with valid=%v, reference says accept=%v", req.WantValid, ref.Accept), "", false
 	}
-	if probe.Ran > 1 {
-		return pf("handler ran %d times for one request", probe.Ran), false, false
+	if ran > 1 {
+		return pf("handler ran %d times for one request", ran), "", false
 	}
-	if probe.Ran == 1 && !ref.Accept {
-		return pf("handler ran although the signature does not cover this request (statement: 'runs only if the signature covers exactly the request's timestamp (within tolerance), method, path, query and body digest under a secret encrypted to a configured key')"), false, false
+	if ran == 1 && !ref.Accept {
+		seen := ""
+		if b, _ := probe.Seen(); len(b) > 0 {
+			seen = fmt.Sprintf("; the handler read %d bytes %q", len(b), clip(b))
+		}
+		return pf("handler ran although the signature does not cover this request%s (statement: 'runs only if the signature covers exactly the request's timestamp (within tolerance), method, path, query and body digest under a secret encrypted to a configured key')", seen), "", false
 	}
-	if probe.Ran == 0 && !ref.Accept && rec.Code != http.StatusForbidden {
-		return pf("rejected request answered with %d, strict mode answers 403", rec.Code), false, false
+	if ran == 0 && !ref.Accept && code != http.StatusForbidden {
+		return pf("rejected request answered with %d, strict mode answers 403", code), "", false
 	}
 	if !(req.Pristine && ref.Accept) {
-		return "", false, false
+		return "", "", false
 	}
 	// a request exactly as a conforming client builds it
-	if probe.Ran != 1 {
+	if ran != 1 {
 		msg := pf("correctly signed request (all components covered, timestamp inside the tolerance, secret encrypted to a configured key) did not reach the handler")
-		return msg, req.EmptyEncrypted && rec.Code == http.StatusBadRequest, false
+		if req.EmptyEncrypted && code == http.StatusBadRequest {
+			return msg, KnownEmptyPayload, false
+		}
+		return msg, "", false
 	}
-	if probe.BodyErr != nil {
-		return pf("handler could not read the body: %v", probe.BodyErr), false, false
+	seenBody, bodyErr := probe.Seen()
+	if bodyErr != nil {
+		return pf("handler could not read the body: %v", bodyErr), "", false
 	}
 	if req.BodyEncrypted {
-		if !bytes.Equal(probe.Body, req.Payload) {
-			return pf("encrypted body did not reach the handler decrypted: handler read %d bytes %q, payload was %d bytes %q (statement: 'an encrypted body reaches the handler decrypted ... round-tripping any payload')",
-				len(probe.Body), clip(probe.Body), len(req.Payload), clip(req.Payload)), req.EmptyEncrypted, false
+		if !bytes.Equal(seenBody, req.Payload) {
+			msg := pf("encrypted body did not reach the handler decrypted: handler read %d bytes %q, payload was %d bytes %q (statement: 'an encrypted body reaches the handler decrypted ... round-tripping any payload')",
+				len(seenBody), clip(seenBody), len(req.Payload), clip(req.Payload))
+			switch {
+			case req.UnknownLenEncrypted && bytes.Equal(seenBody, req.Body):
+				return msg, KnownUnknownLength, false
+			case req.EmptyEncrypted:
+				return msg, KnownEmptyPayload, false
+			}
+			return msg, "", false
 		}
 		// the response must come back encrypted under the same key
-		got := rec.Body.Bytes()
+		got := respBody
 		if len(got) == 0 {
 			if len(req.Resp) != 0 {
-				return pf("response of %d bytes came back empty", len(req.Resp)), false, false
+				return pf("response of %d bytes came back empty", len(req.Resp)), "", false
 			}
 		} else {
 			ct, err := base64.StdEncoding.DecodeString(string(got))
 			if err != nil {
-				return pf("response is not base64 (returned in the clear?): %q", clip(got)), false, false
+				return pf("response is not base64 (returned in the clear?): %q", clip(got)), "", false
 			}
 			pt, err := ECBDecrypt(req.AESKey, ct)
 			if err != nil {
-				return pf("response does not decrypt under the request key: %v", err), false, false
+				return pf("response does not decrypt under the request key: %v", err), "", false
 			}
 			if !bytes.Equal(pt, req.Resp) {
-				return pf("decrypted response %q differs from what the handler wrote %q", clip(pt), clip(req.Resp)), false, false
-			}
-			if bytes.Equal(got, req.Resp) {
-				return pf("response returned in the clear"), false, false
+				return pf("decrypted response %q differs from what the handler wrote %q", clip(pt), clip(req.Resp)), "", false
 			}
 		}
 	} else {
-		if !bytes.Equal(probe.Body, req.Body) {
-			return pf("plain body changed on its way to the handler: read %q, sent %q", clip(probe.Body), clip(req.Body)), false, false
+		if !bytes.Equal(seenBody, req.Body) {
+			return pf("plain body changed on its way to the handler: read %q, sent %q", clip(seenBody), clip(req.Body)), "", false
 		}
 	}
-	return "", false, false
+	return "", "", false
 }
 
 func clip(b []byte) string {
@@ -1610,7 +1785,7 @@ func RunCSCase(t *rapid.T, st *verifkit.Stats, env *Env, opt CSGenOpt, build CSB
 	nontrivial := false
 	for i, r := range reqs {
 		fmt.Fprintf(&logb, "\n  #%d %s", i, r.Desc)
-		problem, _, inconclusive := SendCS(env, conf, gate, probe, r, st)
+		problem, _, inconclusive := SendCS(env, conf, gate, probe, r, st, opt.Wire)
 		if inconclusive {
 			st.Note("cs: more than 3 s between choosing the timestamp and the answer, or the verdict changed in flight (inconclusive)")
 			continue
@@ -1631,7 +1806,7 @@ func RunCSCase(t *rapid.T, st *verifkit.Stats, env *Env, opt CSGenOpt, build CSB
 // (used by the plain regression tests).
 func BuildCSReq(env *Env, conf CSConf, now int64, method, path, query string, payload, key []byte, encrypted bool, resp []byte) (CSReq, error) {
 	r := CSReq{Method: method, Path: path, Query: query, Payload: payload, AESKey: key, Encrypted: encrypted,
-		Resp: resp, RespChunks: 1, Pristine: true, WantValid: true, HasHeader: true, GenNow: now}
+		Resp: resp, RespChunks: 1, Pristine: true, WantValid: true, HasHeader: true, GenNow: now, Shape: ShapeSized}
 	r.Body = payload
 	typ := "0"
 	if encrypted {
@@ -1666,62 +1841,80 @@ type CryptCase struct {
 	Key, Payload, Resp []byte
 	Chunks             int
 	SendBody           bool // false: no request body at all (only the response is encrypted)
+	Shape              string
 }
 
-// CheckCrypt sends the case and returns the violated clause ("" if none) and whether
-// it is the signature of the known finding D12 (empty payload, encrypted).
-func CheckCrypt(c CryptCase, build CryptBuild) (problem string, emptyPayloadDefect bool) {
+// CheckCrypt sends the case and returns the violated clause ("" if none) and, if the
+// failure is exactly the signature of a finding that may be listed as known (D12: empty
+// payload; D-C18-2: unknown length), that finding's id.
+func CheckCrypt(c CryptCase, build CryptBuild) (problem string, defect string) {
 	probe := &Probe{}
 	h := build(c.Key, probe)
-	var body io.Reader = http.NoBody
+	if c.Shape == "" {
+		c.Shape = ShapeSized
+	}
+	var wire []byte
 	if c.SendBody {
 		ct, err := ECBEncrypt(c.Key, c.Payload)
 		if err != nil {
-			return "generator bug: " + err.Error(), false
+			return "generator bug: " + err.Error(), ""
 		}
-		body = strings.NewReader(base64.StdEncoding.EncodeToString(ct))
+		wire = []byte(base64.StdEncoding.EncodeToString(ct))
 	}
+	body, cl := shapedBody(c.Shape, wire)
 	hr := httptest.NewRequest(http.MethodPost, "http://c18.test/any", body)
+	hr.ContentLength = cl
 	probe.Reset(c.Resp, c.Chunks, true)
 	rec := httptest.NewRecorder()
 	h.ServeHTTP(rec, hr)
 	pf := func(format string, a ...any) string {
-		return fmt.Sprintf("%s\n case: key=%dB payload=%dB %q sendBody=%v resp=%dB/%d\n got: handlerRan=%d status=%d respLen=%d",
-			fmt.Sprintf(format, a...), len(c.Key), len(c.Payload), clip(c.Payload), c.SendBody, len(c.Resp), c.Chunks, probe.Ran, rec.Code, rec.Body.Len())
+		return fmt.Sprintf("%s\n case: key=%dB payload=%dB %q sendBody=%v shape=%s resp=%dB/%d\n got: handlerRan=%d status=%d respLen=%d",
+			fmt.Sprintf(format, a...), len(c.Key), len(c.Payload), clip(c.Payload), c.SendBody, c.Shape, len(c.Resp), c.Chunks, probe.Ran, rec.Code, rec.Body.Len())
 	}
 	empty := c.SendBody && len(c.Payload) == 0
 	if probe.Ran != 1 {
-		return pf("encrypted body did not reach the handler (statement: 'an encrypted body reaches the handler decrypted ... round-tripping any payload')"), empty && rec.Code == http.StatusBadRequest
+		d := ""
+		if empty && rec.Code == http.StatusBadRequest {
+			d = KnownEmptyPayload
+		}
+		return pf("encrypted body did not reach the handler (statement: 'an encrypted body reaches the handler decrypted ... round-tripping any payload')"), d
 	}
 	if probe.BodyErr != nil {
-		return pf("handler could not read the body: %v", probe.BodyErr), false
+		return pf("handler could not read the body: %v", probe.BodyErr), ""
 	}
 	if c.SendBody && !bytes.Equal(probe.Body, c.Payload) {
-		return pf("handler read %d bytes %q instead of the payload", len(probe.Body), clip(probe.Body)), empty
+		d := ""
+		switch {
+		case c.Shape != ShapeSized && bytes.Equal(probe.Body, wire):
+			d = KnownUnknownLength
+		case empty:
+			d = KnownEmptyPayload
+		}
+		return pf("encrypted body did not reach the handler decrypted: handler read %d bytes %q instead of the payload (statement: 'an encrypted body reaches the handler decrypted')", len(probe.Body), clip(probe.Body)), d
 	}
 	got := rec.Body.Bytes()
 	if len(got) == 0 {
 		if len(c.Resp) != 0 {
-			return pf("response of %d bytes came back empty", len(c.Resp)), false
+			return pf("response of %d bytes came back empty", len(c.Resp)), ""
 		}
-		return "", false
+		return "", ""
 	}
 	ct, err := base64.StdEncoding.DecodeString(string(got))
 	if err != nil {
-		return pf("response is not base64 (returned in the clear?): %q", clip(got)), false
+		return pf("response is not base64 (returned in the clear?): %q", clip(got)), ""
 	}
 	pt, err := ECBDecrypt(c.Key, ct)
 	if err != nil {
-		return pf("response does not decrypt under the key: %v", err), false
+		return pf("response does not decrypt under the key: %v", err), ""
 	}
 	if !bytes.Equal(pt, c.Resp) {
-		return pf("decrypted response %q differs from what the handler wrote %q", clip(pt), clip(c.Resp)), false
+		return pf("decrypted response %q differs from what the handler wrote %q", clip(pt), clip(c.Resp)), ""
 	}
-	return "", false
+	return "", ""
 }
 
 // RunCryptCase is one rapid case for the cryption middleware alone.
-func RunCryptCase(t *rapid.T, st *verifkit.Stats, excludeEmpty bool, build CryptBuild) {
+func RunCryptCase(t *rapid.T, st *verifkit.Stats, excludeEmpty, excludeUnknownLen bool, build CryptBuild) {
 	keyLen := rapid.SampledFrom([]int{16, 24, 32}).Draw(t, "keyLen")
 	c := CryptCase{Key: rapid.SliceOfN(rapid.Byte(), keyLen, keyLen).Draw(t, "aesKey")}
 	c.Payload = genBytes(t, "payload", true)
@@ -1736,16 +1929,22 @@ func RunCryptCase(t *rapid.T, st *verifkit.Stats, excludeEmpty bool, build Crypt
 			c.SendBody = rapid.Bool().Draw(t, "encryptEmpty")
 		}
 	}
+	c.Shape = rapid.SampledFrom(shapeMix).Draw(t, "shape")
+	if c.SendBody && c.Shape != ShapeSized && excludeUnknownLen {
+		c.Shape = ShapeSized
+		st.Excluded()
+	}
 	problem, _ := CheckCrypt(c, build)
 	if problem != "" {
 		t.Fatalf("C18/cryption: %s", problem)
 	}
+	st.Class("crypt/shape:" + c.Shape)
 	st.Class(fmt.Sprintf("crypt/payload%%16=%d", len(c.Payload)%16))
 	if !c.SendBody {
 		st.Class("crypt/no-body")
 	}
 	// non-trivial: a length that needs a full padding block, or more than one block
 	if (c.SendBody && (len(c.Payload)%16 == 0 || len(c.Payload) > 16)) || (len(c.Resp) > 0 && (len(c.Resp)%16 == 0 || len(c.Resp) > 16)) {
-		st.NonTrivial(fmt.Sprintf("key=%x payload=%x resp=%x chunks=%d body=%v", c.Key, c.Payload, c.Resp, c.Chunks, c.SendBody))
+		st.NonTrivial(fmt.Sprintf("key=%x payload=%x resp=%x chunks=%d body=%v shape=%s", c.Key, c.Payload, c.Resp, c.Chunks, c.SendBody, c.Shape))
 	}
 }
